@@ -131,19 +131,21 @@ class VariableSetProcessor(Collector):
         self.__var_cache = var_cache
         self.__config = config
 
-    def process_variable(self, name: str, value: any) -> Tuple[VariableId, str]:
+    def process_variable(self, name: str, value: any, as_text: bool = False) -> Tuple[VariableId, str]:
         """
         Process a variable name and value.
 
         :param name: the variable name
         :param value: the variable value
-        :return:
+        :param as_text: also give the value as text (the text of a whole structure is built by the value itself and
+                        can be enormous, e.g. lists that share sub lists, so it is only built when it is used)
+        :return: the variable id and the text of the value (empty unless asked for)
         """
         identity_hash_id = str(id(value))
         check_id = self.__var_cache.check_id(identity_hash_id)
         if check_id is not None:
             # this means the watch result is already in the var_lookup
-            return VariableId(check_id, name), safe_str(value)
+            return VariableId(check_id, name), safe_str(value) if as_text else ''
 
         # else this is an unknown value so process breadth first
         var_ids = []
@@ -160,7 +162,7 @@ class VariableSetProcessor(Collector):
 
         var_id = self.__var_cache.check_id(identity_hash_id)
 
-        return VariableId(var_id, name), safe_str(value)
+        return VariableId(var_id, name), safe_str(value) if as_text else ''
 
     def search_function(self, node: Node) -> bool:
         """
